@@ -288,6 +288,9 @@ class HttpParser(abc.ABC, Generic[_MsgT]):
         self._payload = None
         self._payload_parser: HttpPayloadParser | None = None
         self._payload_has_more_data = False
+        # A body failed without an exception leaving feed_data(): the bytes
+        # behind it cannot be attributed to messages any more.
+        self._payload_failed = False
         self._auto_decompress = auto_decompress
         self._limit = limit
         self._headers_parser = HeadersParser(max_field_size, self.lax)
@@ -339,6 +342,10 @@ class HttpParser(abc.ABC, Generic[_MsgT]):
         SEC_WEBSOCKET_KEY1: istr = hdrs.SEC_WEBSOCKET_KEY1,
     ) -> tuple[list[tuple[_MsgT, StreamReader]], bool, bytes]:
         messages = []
+
+        if self._payload_failed:
+            # Like the rest of the read in which the body failed
+            return messages, False, b""
 
         if self._tail:
             data, self._tail = self._tail + data, b""
@@ -572,6 +579,7 @@ class HttpParser(abc.ABC, Generic[_MsgT]):
                     ):
                         # The framing itself is broken (chunk sizes, trailers)
                         raise
+                    self._payload_failed = True
 
                 self._payload_has_more_data = (
                     payload_state == PayloadState.PAYLOAD_HAS_PENDING_INPUT
